@@ -310,6 +310,12 @@ def _compare_conditions():
                       nth_compare("len(scan_totals_current.languages()) > 1"), cond=True, aliases={"len(scan_totals_current.languages())": "n"}))
     out.append(t_expr("codelimit/common/report/format_markdown.py", "_print_totals", "md_totals_row", [("n", "Z")], "bool",
                       nth_compare("len(scan_totals_current.languages_totals()) > 1"), cond=True, aliases={"len(scan_totals_current.languages_totals())": "n"}))
+    # ---- the version gate of the cache: only a report written by this very version is reused
+    out.append(t_expr("codelimit/commands/scan.py", "_read_cached_report", "cache_version_accepted",
+                      [("has_report", "bool"), ("v", "pystr"), ("cur", "pystr")], "bool",
+                      nth_compare("cached_report and cached_report.version == Report.VERSION"), cond=True,
+                      aliases={"cached_report": "has_report", "cached_report.version": "v", "Report.VERSION": "cur"},
+                      str_exprs=["cached_report.version", "Report.VERSION"]))
     # ---- second batch: cache reuse, lexer arithmetic, brace matching
     SC="codelimit/common/Scanner.py"
     out.append(t_expr(SC,"_scan_file","reuse_cached_entry",[("has_entry","bool"),("cached_ck","Z"),("checksum","Z")],"bool",
